@@ -29,6 +29,14 @@ type readerFile struct {
 	codec  string
 	bytes  []byte
 	inputs []reflect.Value
+	typ    reflect.Type // nil: RRec
+}
+
+func (rf readerFile) targetType() reflect.Type {
+	if rf.typ != nil {
+		return rf.typ
+	}
+	return reflect.TypeFor[RRec]()
 }
 
 func mkRRec(c *driverCtx, i int, big bool) RRec {
@@ -119,6 +127,22 @@ func readerFiles(c *driverCtx, withLarge bool) []readerFile {
 			out = append(out, readerFile{name: l.name, codec: codec, bytes: w.out, inputs: vals})
 		}
 	}
+	// records that take no bytes at all (a type without Avro-visible fields): the declared count is all there is
+	{
+		zt := staticOf[WNoFields]("WNoFields")
+		for _, codec := range codecs3 {
+			vals := make([]reflect.Value, 5)
+			for i := range vals {
+				p := reflect.New(zt.typ)
+				vals[i] = p.Elem()
+			}
+			w := &recWriter{}
+			cfg := rtConfig{Codec: codec, Block: 1 << 20, Flush: map[int]bool{1: true, 4: true}}
+			if err, p := safeMake(zt.mk, w, cfg, vals); err == nil && p == "" {
+				out = append(out, readerFile{name: "zero-width-records", codec: codec, bytes: w.out, inputs: vals, typ: zt.typ})
+			}
+		}
+	}
 	// files no writer of this library would produce but any conformant writer may: blocks declaring zero records
 	// (empty payload) between ordinary blocks, at the start and at the end
 	for _, codec := range codecs3 {
@@ -197,7 +221,6 @@ func emitOpen(c *driverCtx, prop string, rf readerFile) string {
 var readerKinds = []string{"bytes", "bufio", "onebyte", "chunk", "buffer", "strings", "bytes+close", "bufio+closesome", "buffer+closesome", "chunk+close", "strings+closesome", "bytes+nested", "bufio+nested", "eagereof", "eagereof+close"}
 
 func driveC08(c *driverCtx) error {
-	typ := reflect.TypeFor[RRec]()
 	files := readerFiles(c, true)
 	for fi, rf := range files {
 		key := emitOpen(c, "C08", rf)
@@ -230,7 +253,7 @@ func driveC08(c *driverCtx) error {
 			if step > 1 && cut%step != 0 && !important[cut] {
 				continue
 			}
-			r := readBack(typ, rf.bytes[:cut], readerKinds[(cut+fi)%len(readerKinds)], cut%2 == 0, -1, nil)
+			r := readBack(rf.targetType(), rf.bytes[:cut], readerKinds[(cut+fi)%len(readerKinds)], cut%2 == 0, -1, nil)
 			ev := readerOutcome(r, nil)
 			ev["op"], ev["cut"] = "rd_cut", cut
 			c.rec.Emit(key, ev)
@@ -248,7 +271,7 @@ func driveC07(c *driverCtx) error {
 			// intact file must still deliver exactly its records (a block larger than the reader's 1 MiB chunk)
 			if rf.name == "over1MiB" {
 				key := emitOpen(c, "C07", rf)
-				r := readBack(typ, rf.bytes, "bytes", false, -1, nil)
+				r := readBack(rf.targetType(), rf.bytes, "bytes", false, -1, nil)
 				ev := readerOutcome(r, nil)
 				ev["op"], ev["cut"] = "rd_cut", len(rf.bytes)
 				c.rec.Emit(key, ev)
@@ -262,7 +285,7 @@ func driveC07(c *driverCtx) error {
 		key := emitOpen(c, "C07", rf)
 		// intact file, every reader kind
 		for _, rk := range readerKinds {
-			r := readBack(typ, rf.bytes, rk, false, -1, nil)
+			r := readBack(rf.targetType(), rf.bytes, rk, false, -1, nil)
 			ev := readerOutcome(r, nil)
 			ev["op"], ev["cut"] = "rd_cut", len(rf.bytes)
 			c.rec.Emit(key, ev)
@@ -275,7 +298,7 @@ func driveC07(c *driverCtx) error {
 			// the error is the caller's: whatever it is -- a private sentinel, io.EOF, io.ErrUnexpectedEOF, something
 			// wrapped -- it comes back unchanged
 			sentinel := []error{errSentinel, io.EOF, io.ErrUnexpectedEOF, fmt.Errorf("wrapped: %w", io.EOF), errSentinel}[i%5]
-			r := readBack(typ, rf.bytes, readerKinds[(i)%len(readerKinds)], i%2 == 0, i, sentinel)
+			r := readBack(rf.targetType(), rf.bytes, readerKinds[(i)%len(readerKinds)], i%2 == 0, i, sentinel)
 			ev := readerOutcome(r, sentinel)
 			ev["op"], ev["failAt"] = "rd_cb", i
 			c.rec.Emit(key, ev)
@@ -338,7 +361,7 @@ func driveC07(c *driverCtx) error {
 						dec = map[string]any{"inPayload": true, "block": bi + 1, "ok": ok, "crc": crc, "same": ok && string(raw) == string(orig)}
 					}
 				}
-				r := readBack(typ, d, readerKinds[(si+fi)%len(readerKinds)], si%2 == 0, -1, nil)
+				r := readBack(rf.targetType(), d, readerKinds[(si+fi)%len(readerKinds)], si%2 == 0, -1, nil)
 				for k, v := range readerOutcome(r, nil) {
 					ev[k] = v
 				}
